@@ -928,8 +928,9 @@ class Scene(Geometry3D):
                     # transform moves in 3D so we put this on the Z=0 plane
                     current = current.to_3D()
                 else:
-                    # transform moves in 2D so clip off the last row and column
-                    transform = transform[:3, :3]
+                    # transform moves in 2D so keep the planar rows and
+                    # columns: X, Y and the homogeneous one (not Z)
+                    transform = transform[np.ix_([0, 1, 3], [0, 1, 3])]
 
             # move the geometry vertices into the requested frame
             current.apply_transform(transform)
